@@ -17,6 +17,7 @@ import XzVerif.Model.XzW
 import XzVerif.Model.Writer2F
 import XzVerif.Model.LazyDec
 import XzVerif.Model.XzWF
+import XzVerif.Model.LazyDec2
 /-
   driver — line protocol around the executable definitions of Spec and Model.
   One request per line on stdin, one reply line on stdout.  Core-only, so it links.
@@ -428,6 +429,16 @@ def handle (line : String) : String :=
         let rs := LazyDec.readSeq l lens
         " ".intercalate (rs.map (fun (o, st) => s!"{o.size}:" ++ (match st with | .ok => "ok" | .eof => "EOF" | .err e => en e))) ++
           " | " ++ hex (LazyDec.delivered rs)
+    | _, _ => "bad-op"
+  -- lz2lazy <cfgCap> <hex(stream)> <len>... → the lazy LZMA2 reader (ring level): per call n:status … | delivered bytes
+  | "lz2lazy" :: cc :: h :: lens => match cc.toNat?, lens.mapM String.toNat? with
+    | some cc, some lens =>
+      let en : LazyDec.Err → String := fun e => match e with
+        | .unexpectedEOF => "UnexpectedEOF" | .size => "size" | .dataAfterEOS => "dataAfterEOS" | .noSpace => "noSpace"
+        | .distRange => "distRange" | .lenRange => "lenRange" | .panic => "panic" | .other w => "other(" ++ w.replace " " "_" ++ ")"
+      let rs := LazyDec2.readSeq (LazyDec2.newReader2 cc (unhex h)) lens
+      " ".intercalate (rs.map (fun (o, st) => s!"{o.size}:" ++ (match st with | .ok => "ok" | .eof => "EOF" | .err e => en e))) ++
+        " | " ++ hex (LazyDec.delivered rs)
     | _, _ => "bad-op"
   -- btcands <dictCap> <hex(history)> <hex(look ≤ 273)> → special:a:b of the Lean binary tree model
   | ["btcands", dc, h, l] => match dc.toNat? with
